@@ -172,9 +172,11 @@ def to_smt2(ctx, hyps, goal, extra_axioms=(), ground=False):
     s = z3.Solver()
     if ground:
         # a lemma proved from its listed (ground) hypotheses alone: no quantified axioms are handed to the solver
+        # (terms are normalised first so that syntactically different spellings of one index, `layer - 1 + 1` and
+        # `layer`, become ONE term and equal non-linear subterms are shared instead of compared arithmetically)
         for h in hyps:
-            s.add(h)
-        s.add(z3.Not(goal))
+            s.add(z3.simplify(h))
+        s.add(z3.Not(z3.simplify(goal)))
         return s.to_smt2()
     for a in ctx.sum_axioms():
         s.add(a)
